@@ -86,5 +86,8 @@ def run(ctx):
                    ordered_kind_pairs=len(pairs), foreign_messages_that_ran_a_same_named_handler_of_the_right_kind=ran,
                    model_disagreements=ndiff, oracle_failures=bad)
     ctx.cov["traces_validated_against_impl"] += len(rows)
+    # contracts without the `replies` feature: which method the reply entry point hands the `Reply` to (expansion level)
+    from . import C06
+    C06.legacy_reply_stream(ctx, "cross-kind-reach")
     ctx.cov["rule"] = ("every well-formed message of kind K1 of every generated program sent to every other entry point K2 (through entry_points::<K2> and "
                        "through <K2 message>::dispatch); programs deliberately share method names across kinds between contract and interfaces")
